@@ -712,14 +712,18 @@ class PEngine:
             for k, v in f.consume.items():
                 d = self.consume_sites.setdefault(k, {"fn": v["fn"], "line": v["line"], "callee": v["callee"],
                                                       "karg": v["karg"], "kinds": set(), "brace_kinds": set(),
-                                                      "ctx": None, "open_kinds": set()})
+                                                      "ctx": None, "open_kinds": set(), "stolen": set()})
                 d["kinds"] |= v["kinds"]
                 d["open_kinds"] |= v["kinds_open"]
-                if c in inb:
-                    d["brace_kinds"] |= v["kinds"]
-                    if "R_BRACE" in v["kinds"] and d["ctx"] is None:
+                inside = set(v["kinds_open"]) | (set(v["kinds"]) if c in inb else set())
+                d["brace_kinds"] |= inside
+                # a brace owner closing its own region: expect/eat(`}`) while its `{` is open
+                own = v["callee"] in ("eat", "expect") and v["karg"] == "R_BRACE"
+                steal = (set(v["kinds"]) - set(v["kinds_open"]) if c in inb else set()) if own else inside
+                if "R_BRACE" in steal:
+                    d["stolen"].add("R_BRACE")
+                    if d["ctx"] is None:
                         d["ctx"] = v["ctx"]
-                d["brace_kinds"] |= v["kinds_open"]
             self.unknown_calls.update(f.unknown)
             if f.la_abs[0] > self.la_abs[0]:
                 self.la_abs = f.la_abs
